@@ -88,6 +88,26 @@ def gate_case(case):
         Dg = N(gp.dagger.matrix)
         if np.abs(Dg - Un.conj().T).max() > 1e-9:
             return {"ok": False, "msg": "%s%s.dagger is not the conjugate transpose (is_hermitian=%s)" % (name, tuple(round(x, 4) for x in pt), g.is_hermitian), "sig": "dagger", "ops": ops}
+    # (a) the Hermitian flag and dagger are functions of the parameter VALUES, not polynomials: special values are checked explicitly;
+    # (b) a gate reached by replace_params / bind from a gate whose matrix was already evaluated must have the matrix of ITS parameters
+    special = [0, 0.0, np.pi / 2, np.pi, -np.pi, 2 * np.pi, 4 * np.pi, 1]
+    seed_gate = get_gate(name, tuple(0.6 + i for i in range(k)))
+    _ = seed_gate.matrix
+    _ = g.matrix
+    for pt in itertools.product(special, repeat=k) if k <= 2 else [(a, a, a) for a in special] + [(0, np.pi, 0.5), (0.5, 0, 0)]:
+        gp = get_gate(name, pt)
+        Un = N(gp.matrix)
+        ops += 3
+        if gp.is_hermitian and np.abs(Un - Un.conj().T).max() > 1e-9:
+            return {"ok": False, "msg": "%s%s is flagged self-adjoint but differs from its conjugate transpose" % (name, pt), "sig": "hermitian-flag", "ops": ops}
+        if np.abs(N(gp.dagger.matrix) - Un.conj().T).max() > 1e-9:
+            return {"ok": False, "msg": "%s%s.dagger is not the conjugate transpose (is_hermitian=%s)" % (name, pt, gp.is_hermitian), "sig": "dagger", "ops": ops}
+        if np.abs(Un.conj().T @ Un - np.eye(d)).max() > 1e-9:
+            return {"ok": False, "msg": "%s%s is not unitary" % (name, pt), "sig": "unitary", "ops": ops}
+        fpt = tuple(float(x) for x in pt)
+        for route, other in (("replace_params after .matrix", seed_gate.replace_params(fpt)), ("bind after .matrix", g.bind(dict(zip(syms, fpt))))):
+            if np.abs(N(other.matrix) - np.array(f(*fpt), dtype=complex)).max() > 1e-9 or tuple(float(x) for x in other.params) != fpt:
+                return {"ok": False, "msg": "%s%s obtained by %s does not have the matrix of its parameters" % (name, fpt, route), "sig": "matrix:stale-after-" + route.split(" ")[0], "ops": ops}
     if name == "Delay":
         for dly in (0, 1, 2.5, sympy.Symbol("d")):
             if sympy.Matrix(get_gate("Delay", (dly,)).matrix) != sympy.eye(2):
